@@ -436,6 +436,8 @@ impl Router {
             self.done_token.cancelled().await;
             return Ok(());
         }
+        #[cfg(feature = "verif-hooks")]
+        crate::verif_hooks::sched::pause("router.shutdown.after_check").await;
 
         // Trigger shutdown of the main run task by activating the cancel token.
         self.cancel_token.cancel();
